@@ -1448,7 +1448,7 @@ def _sort_vectors(vec_set_in, ts):
                 if current_score > best_score:
                     best_score = current_score
                     best_perm = perm
-            sorted_vec_set.append([vec_set_in[t][k] for k in best_perm])
+            sorted_vec_set.append([vec_set_in[t][best_perm.index(k)] for k in range(N)])
         else:
             sorted_vec_set.append(vec_set_in[t])
 
